@@ -295,6 +295,11 @@ func pricingHarness(kind string, third string, bound int) harness {
 			})
 		case "exec":
 			bs = append(bs, func() { resC = bodies.Exec(l, "ESDTNFTTransfer") })
+		case "direct":
+			// the change reaches the function objects directly, in a struct its owner overwrites
+			// right afterwards: the execution is charged by S1 or by the delivered S2, never by
+			// what the struct holds later
+			bs[1] = func() { bodies.DeliverDirectly(l, 5000) }
 		}
 		return bs, func(r *vsched.Result) (string, *violation) {
 			check := func(res bodies.ExecResult) (string, *violation) {
@@ -578,6 +583,9 @@ func allHarnesses(tier checks.Tier) []harness {
 	hs = append(hs, pricingHarness("ESDTNFTTransfer", "epoch", 2), pricingHarness("MultiESDTNFTTransfer", "exec", 2))
 	if thorough {
 		hs = append(hs, pricingHarness("ESDTNFTCreate", "exec", 2), pricingHarness("SaveKeyValue", "epoch", 2))
+	}
+	for _, k := range []string{"ESDTNFTUpdateAttributes", "ESDTNFTAddURI", "ESDTNFTCreate", "SaveKeyValue", "ESDTNFTTransfer", "MultiESDTNFTTransfer"} {
+		hs = append(hs, pricingHarness(k, "direct", 2))
 	}
 	// H3t: the same with tight gas
 	for _, k := range bodies.ExecKinds {
